@@ -107,7 +107,8 @@ structure Func where
 structure Meth where
   name : Name               -- key of `inspect.getmembers(cls, inspect.isfunction)`
   qualified : Name          -- `f"{method.__module__}.{method.__qualname__}"` (matched against the method blacklist)
-  definedHere : Bool        -- `__is_method_defined_in_class(cls, method)`
+  definer : Option Nat      -- `get_class_that_defined_method(method)`: identity (`Cls.id`) of the class object found at
+                            -- `getattr(inspect.getmodule(method), <class part of __qualname__>)`; `none` = no such class
   isCoroutine : Bool
   deriving DecidableEq, Repr
 
@@ -121,6 +122,11 @@ structure Cls where
   methods : List Meth
   bases : List Nat
   deriving DecidableEq, Repr
+
+/-- `__is_method_defined_in_class(class_, method)`: `class_ == get_class_that_defined_method(method)` — an
+identity comparison of class objects (NOT of names: `class Handler(base.Handler)` has the same `__qualname__`
+as its base, the methods it inherits are still defined in the other class). -/
+def Meth.definedIn (m : Meth) (c : Cls) : Bool := m.definer == some c.id
 
 structure Mod where
   name : Name
@@ -180,7 +186,7 @@ def analyseFunction (P : Preds) (cfg : Cfg) (f : Func) (addToTest : Bool) : List
 
 def analyseMethod (P : Preds) (cfg : Cfg) (c : Cls) (m : Meth) (addToTest : Bool) : List Acc :=
   if P.isAnnotate m.name || P.shouldSkip cfg.visibility (lastSegment m.name) addToTest
-      || P.isConstructor m.name || !m.definedHere then []
+      || P.isConstructor m.name || !m.definedIn c then []
   else if methodListed P cfg m.qualified then []
   else if m.isCoroutine then []
   else if addToTest then [.meth c m] else []
